@@ -60,9 +60,61 @@ def tokens_of(sent):
     return [Token.of_word(w) for w in sent['words']]
 
 
-def run_parser(case, grammar, sentences=None, **override):
+class _Done:
+    def __init__(self, blob):
+        self.blob = blob
+
+    def ready(self):
+        return True
+
+    def successful(self):
+        return True
+
+    def wait(self, timeout=None):
+        return None
+
+    def get(self, timeout=None):
+        import pickle
+        return pickle.loads(self.blob)
+
+
+class PicklingSyncPool:
+    """stands in for multiprocessing.Pool in depccg.parsing: every task runs at once in this process, but its
+    arguments and its result cross a pickle boundary exactly as they would between processes.  The code under
+    test is unmodified and takes its multi-process branch (chunking, task order, joining of results) without
+    forking or sleeping, so that branch can be exercised thousands of times."""
+
+    def __init__(self, processes=None, *a, **k):
+        self.processes = processes
+
+    def __enter__(self):
+        return self
+
+    def __exit__(self, *a):
+        return False
+
+    def apply_async(self, func, args=(), kwds={}, callback=None, error_callback=None):
+        import pickle
+        a2, k2 = pickle.loads(pickle.dumps((args, kwds)))
+        res = func(*a2, **k2)
+        if callback is not None:
+            callback(res)
+        return _Done(pickle.dumps(res))
+
+    def close(self):
+        pass
+
+    def join(self):
+        pass
+
+    def terminate(self):
+        pass
+
+
+def run_parser(case, grammar, sentences=None, via_pool=False, **override):
     """one call of depccg.parsing.run over the sentences of the case; returns (results, faults)
-    faults: exceptions swallowed by noexcept callbacks / undefined behaviour surfaced by the shim"""
+    faults: exceptions swallowed by noexcept callbacks / undefined behaviour surfaced by the shim.
+    via_pool: force the multi-process branch of depccg.parsing.run, served by PicklingSyncPool"""
     import depccg.parsing
     from depccg.cat import Category
     from depccg.types import ScoringResult
@@ -79,7 +131,16 @@ def run_parser(case, grammar, sentences=None, **override):
     cfg.update(override)
     del rt.unraisable[:]
     del rt.faults[:]
-    results = depccg.parsing.run(docs, scores, cats, roots, grammar.binary, grammar.unary, **cfg)
+    if via_pool:
+        real_pool = depccg.parsing.Pool
+        depccg.parsing.Pool = PicklingSyncPool
+        cfg['max_chunk_size'] = 0
+        try:
+            results = depccg.parsing.run(docs, scores, cats, roots, grammar.binary, grammar.unary, **cfg)
+        finally:
+            depccg.parsing.Pool = real_pool
+    else:
+        results = depccg.parsing.run(docs, scores, cats, roots, grammar.binary, grammar.unary, **cfg)
     faults = [f'{type(e).__name__}: {e}' for e in rt.unraisable] + list(rt.faults)
     return results, docs, faults
 
